@@ -394,6 +394,20 @@ def check16(chk, case, fx, name, src, orig, stub_tree, out, res, base_result, re
             chk.fail("new-import-not-confined", dict(case, item=list(i), result=out[:1500]))
         if not movable and i not in top_names:
             chk.fail("runtime-import-missing", dict(case, item=list(i), result=out[:1500]))
+    # an import the stub needs and the source has only in a nested place (under an existing `if TYPE_CHECKING:`, in a function
+    # body, in a try): MonkeyType does not count it as new, libcst adds it at module top level all the same
+    orig_top = set()
+    for p, n in applygen.import_stmts(orig):
+        if not p:
+            for al in n.names:
+                orig_top.add((getattr(n, "module", None) if isinstance(n, ast.ImportFrom) else al.name,
+                              al.name if isinstance(n, ast.ImportFrom) else None, al.asname))
+    for i in sorted(set(top_names), key=repr):
+        movable = i[0] not in ("typing", "__future__") and not (i[0] == "mypy_extensions" and i[1] == "TypedDict")
+        if movable and i not in orig_top and i in src_items and i in stub_items:
+            chk.fail("new-import-not-confined", dict(case, item=list(i), detail="the source has this import only in a nested place; "
+                                                     "the result has it at module top level too, unconfined", result=out[:1500]),
+                     finding="KF-C16-nested-source-import")
     reqs.append(("movable", tuple(to_item(i) for i in stub_items), tuple(to_item(i) for i in src_items), tuple(Q(m) for m in stars)))
     meta.append((case, sorted({(i[0], i[1]) for i in tc_names})))
     # the module imports and behaves as before
